@@ -222,7 +222,7 @@ def rule_create_from(ctx, rid="R4.4"):
     r = ctx.rule(rid, "SchemaError.create_from copies every field; check_schema re-types the first metaschema error and does nothing else", floor=3)
     E = prog.cls("exceptions._Error")
     init = E.methods["__init__"]
-    cont = E.methods["_contents"]
+    cont = find_method(prog, "exceptions._Error", "_contents")
     from .errsem import create_from_eval, FIELDS
     sem = create_from_eval(prog)
     if sem is not None:
@@ -284,9 +284,10 @@ def rule_create_from(ctx, rid="R4.4"):
     else:
         r.ok(site(init), "every constructor parameter is stored under its own name")
     cf = E.methods["create_from"]
-    ok = any(isinstance(n, ast.Return) and norm(n.value) == "%s(**%s._contents())" % (cf.params[0], cf.params[1]) for n in walk_body(cf))
+    cname = cont.name
+    ok = any(isinstance(n, ast.Return) and norm(n.value) == "%s(**%s.%s())" % (cf.params[0], cf.params[1], cname) for n in walk_body(cf))
     if not ok:
-        tmp = [n for n in walk_body(cf) if isinstance(n, ast.Assign) and isinstance(n.targets[0], ast.Name) and norm(n.value) == "%s._contents()" % cf.params[1]]
+        tmp = [n for n in walk_body(cf) if isinstance(n, ast.Assign) and isinstance(n.targets[0], ast.Name) and norm(n.value) == "%s.%s()" % (cf.params[1], cname)]
         if len(tmp) == 1:
             ok = any(isinstance(n, ast.Return) and norm(n.value) == "%s(**%s)" % (cf.params[0], tmp[0].targets[0].id) for n in walk_body(cf))
     if ok:
